@@ -171,6 +171,9 @@ func vpH_c01_tamper() {
 	ks := keySet
 
 	kind := vpInt(0, 23)
+	if vpParam("matrix") == 0 && !useSigner && vpBool() {
+		kind = 31 + vpInt(0, 1)
+	}
 	if vpParam("matrix") != 0 {
 		kind = vpInt(24, 30)
 	}
@@ -244,6 +247,14 @@ func vpH_c01_tamper() {
 		pres.Env["P"] = pv
 	case 23: // plugin config key renamed
 		pres.Plugins[0].Config = map[string]any{"k" + x: cv}
+	case 31: // a key set that holds only a key of another algorithm
+		other := "ES512"
+		if alg == "ES512" {
+			other = "PS512"
+		}
+		ks = vpKeySetOf(vpSigKey(other, 3))
+	case 32: // an empty key set
+		ks = vpKeySetOf()
 	case 24: // a named dimension changed next to the anonymous one
 		vpAssume(x != "l")
 		pres.Matrix = vpDecoyed(vpMixedMatrix(x, "u"), decoy)
